@@ -431,7 +431,7 @@ pub fn run(cx: &mut Ctx) {
     for (name, m) in directed() {
         cx.case(name, |c| {
             // directed contents get many variants so every layout situation is reached
-            check_content(c, name, &m, 40);
+            check_content(c, name, &m, if cfg!(miri) { 4 } else { 40 });
         });
     }
     let n = cx.a.n(40_000, 1_500_000);
